@@ -243,7 +243,9 @@ pub fn c09(args: Args) {
                 any = true;
                 for i in 0..w.n() {
                     if w.dumps[i].entries.get(u).map(srv::is_live).unwrap_or(false) && seen.insert(*u) {
-                        f.push(("c09/deleted-entry-live-at-quiescence".into(), format!("{u} held as deleted by replica {r0} is live on replica {i}")));
+                        // how the remembering replica holds it now is part of the cause class
+                        let held = state(&w.dumps[r0], u);
+                        f.push((format!("c09/deleted-entry-live-at-quiescence/held-as-{held}"), format!("{u} held as {held} by replica {r0} is live on replica {i}")));
                     }
                 }
             }
